@@ -7,4 +7,4 @@ cd "$here/gen"
 coqc -Q "$here/../coq/theories" IKE "$here/../coq/extract/Extract.v" >/dev/null
 cd "$here/_build"
 cp ../gen/model.ml ../gen/model.mli ../dlib.ml ../h_*.ml ../main.ml .
-ocamlfind ocamlopt -w -a -package str model.mli model.ml dlib.ml h_crypto.ml h_codec.ml h_sec.ml h_misc.ml main.ml -o ../modeldriver
+ocamlfind ocamlopt -w -a -package str model.mli model.ml dlib.ml h_crypto.ml h_codec.ml h_sec.ml h_misc.ml h_spec.ml main.ml -o ../modeldriver
